@@ -120,7 +120,7 @@ def corrupt(rnd, cmd, props, names, inflight, owner_mode):
 
 
 def plan(tier, seed):
-    n = 900 if tier == 'quick' else 40000
+    n = 900 if tier == 'quick' else 7000
     return [{'seed': seed, 'idx': i} for i in range(n)]
 
 
@@ -236,6 +236,9 @@ def _world(w, h, rnd, reqs, res, done):
                     conflict = 'already running' in str(rep.get('reason')) or 'restarting' in str(rep.get('reason'))
                     if b2 == a2 and conflict:
                         mech = 'applied-although-refused-as-conflicting'
+                    elif b2 == a2 and rep.get('errno') == 3:
+                        # errno 3 = MESSAGE_ERROR: the request was refused by *validation*, yet something was applied
+                        mech = 'applied-although-refused-by-validation'
                     elif b2 == a2 and len(props['options']) >= 1 and not any(o.startswith('conflict') for o in ops):
                         # the known mechanism needs an option that passes validation and fails when applied
                         mech = 'options-applied-one-by-one'
